@@ -746,6 +746,20 @@ theorem real_splitter_respects_clause_order (decls : List Comp) (p : List Model.
   rw [h] at h0
   exact split_respects_clause_order (p.map Model.Anchor.Tr.kind) (pre0 ++ pre) mid post a b (by rw [h0]; simp) hb hk
 
+/-- a block of the split table never holds two aggregates (first hypothesis of `pluck_is_sequential_placement`): an Aggregate
+followed by an Aggregate is a pair the table splits -/
+theorem table_block_has_at_most_one_aggregate (p pre mid post : List Kind)
+    (h : atomicSuffix p = pre ++ Kind.Aggregate :: (mid ++ Kind.Aggregate :: post)) : False := by
+  have := split_respects_clause_order p pre mid post .Aggregate .Aggregate h (by decide) (by decide)
+  simp [mustSplit] at this
+
+/-- ... and so does the block of the real splitter -/
+theorem real_block_has_at_most_one_aggregate (decls : List Comp) (p : List Model.Anchor.Tr) (out : List CId)
+    (pre mid post : List Kind)
+    (h : (scanned decls p out).map Model.Anchor.Tr.kind = pre ++ Kind.Aggregate :: (mid ++ Kind.Aggregate :: post)) : False := by
+  have := real_splitter_respects_clause_order decls p out pre mid post .Aggregate .Aggregate h (by decide) (by decide)
+  simp [mustSplit] at this
+
 /-- the two scans on a pipeline where a compute cannot be materialised: the table alone would keep `derive | take`, the real
 scan stops in front of the windowed derive that the take's range needs plain -/
 example : (scanned [] [.from [0], .compute { id := 1, expr := .col 0, win := some [], isAgg := false }, .filter (.col 1)] [0, 1]).length ≤
